@@ -55,7 +55,7 @@ EventsOf(a) ==
       [] a \in {"Remove", "RemoveKeepTree", "RemoveChildren",
                 "Get", "GetKV", "Contains", "Lpm", "Spm", "Cover", "Children"}
                       -> {[a |-> a, p |-> p] : p \in Pfxs}
-      [] a \in {"Clear", "Iter", "Len"} -> {[a |-> a]}
+      [] a \in {"Clear", "Iter", "Len", "CloneCheck", "Collect", "Serde"} -> {[a |-> a]}
       [] a = "ViewDesc" -> {[a |-> a, p |-> p] : p \in Pfxs}
       [] a = "Alias" -> {[a |-> a, p |-> p, how |-> w] : p \in Pfxs, w \in {"iter", "split", "split_union"}}
       [] a = "Find" -> {[a |-> a, p |-> p, q |-> q, kind |-> k] :
